@@ -333,6 +333,10 @@ func (p Prop[C]) replayKnown(t *testing.T) {
 			// known: no longer reproduces (no KNOWN-FINDING line); fixed: stays fixed
 		case e.Status == "known" && f.Key == e.Key:
 			stats.RecordKnown(e.Key, e.What+" — "+firstLine(f.Msg))
+		case e.Status == "known" && Known(p.ID, f.Key):
+			// the reproduction of one listed finding showed another listed finding of the same property
+			// (schedule-dependent reproductions): still a listed finding, reported under its own key
+			stats.RecordKnown(f.Key, "(seen while reproducing "+e.Key+") "+firstLine(f.Msg))
 		default:
 			stats.RecordViolation(p.Test+"/entry/"+e.Key, f.Key, f.Msg, c)
 			t.Errorf("VIOLATION %s entry %s (%s) key=%s: %s", p.ID, e.Key, e.Status, f.Key, f.Msg)
